@@ -495,6 +495,28 @@ Proof.
   apply andb_true_iff in H2. rewrite !Nat.leb_le in H2. exact H2.
 Qed.
 
+Lemma forallb2_complete {A B} (f : A -> B -> bool) : forall l m, length l = length m ->
+  (forall k x y, nth_error l k = Some x -> nth_error m k = Some y -> f x y = true) ->
+  forallb2 f l m = true.
+Proof.
+  induction l as [|x l IH]; intros [|y m] Hl H; cbn [length] in Hl; try discriminate; cbn [forallb2]; [reflexivity|].
+  apply andb_true_iff. split.
+  - apply (H O); reflexivity.
+  - apply IH; [congruence|]. intros k x' y' Hx Hy. apply (H (S k)); assumption.
+Qed.
+
+(** the validator rejects nothing valid: it is exact *)
+Theorem check_spans_complete r s spans : spans_valid r s spans -> check_spans r s spans = true.
+Proof.
+  intros (i0 & j0 & rest & -> & H0 & Hlen & H). unfold check_spans.
+  apply andb_true_iff. split; [apply span_ok_spec; exact H0|].
+  apply forallb2_complete; [rewrite subs_length; symmetry; exact Hlen|].
+  intros k [[ci body] anc] [[i j]|] Hk Hr; [|reflexivity].
+  destruct (H _ _ _ _ _ _ Hk Hr) as (HL & oi & oj & Hn & Hi & Hj).
+  unfold sub_ok. apply andb_true_iff. split; [apply span_ok_spec; exact HL|].
+  rewrite Hn. unfold within. cbn [fst snd]. apply andb_true_iff. rewrite !Nat.leb_le. auto.
+Qed.
+
 (* ------------------------------------------------------------------------------------------ *)
 (** * regexp-fold: successive matches *)
 
